@@ -86,6 +86,12 @@ func program(r *mc.Run, n int, useDeadline bool) func(x *mc.X) {
 				ctx, cancel = context.WithCancel(context.Background())
 			}
 			defer cancel()
+			// the round's context may already be over when the collection starts
+			// (a caller that was itself delayed)
+			preCancelled := x.Choose(2, "context-over-at-start") == 1
+			if preCancelled {
+				cancel()
+			}
 			var rc client.ReferenceClockClient
 			var retAt time.Time
 			returned := false
@@ -97,7 +103,7 @@ func program(r *mc.Run, n int, useDeadline bool) func(x *mc.X) {
 			w.Settle()
 			w.CheckPanics()
 			var expect []measurements.Measurement
-			delivered, cancelled := 0, false
+			delivered, cancelled := 0, preCancelled
 			mustReturn := func() bool { return delivered == n || cancelled }
 			for {
 				if returned != mustReturn() {
@@ -139,6 +145,11 @@ func program(r *mc.Run, n int, useDeadline bool) func(x *mc.X) {
 				x.Failf("round-after-deadline", "returned at +%v, deadline +%v", retAt.Sub(start), timeout)
 			}
 			for i := range ms {
+				if preCancelled {
+					// clocks that answer the moment they see the context over race with the
+					// collector seeing the same: their results may or may not count
+					break
+				}
 				want := sentinel
 				if i < len(expect) {
 					want = expect[i]
@@ -154,12 +165,16 @@ func program(r *mc.Run, n int, useDeadline bool) func(x *mc.X) {
 					close(c.release)
 				}
 			}
+			snapshot := append([]measurements.Measurement{}, ms...)
 			cancel()
 			w.Settle()
 			for i := range ms {
 				want := sentinel
 				if i < len(expect) {
 					want = expect[i]
+				}
+				if preCancelled {
+					want = snapshot[i] // (what counted at the start is left open, see above)
 				}
 				if ms[i].Offset != want.Offset {
 					x.Failf("late-result-counted", "a result that arrived after the round ended changed the slice: %v", fmtMs(ms))
@@ -435,7 +450,7 @@ func TestCheck(t *testing.T) {
 			r.Explore(mc.Config{Name: "rounds/2x2", Bound: -1}, rounds(r, 2, 2))
 			r.Explore(mc.Config{Name: "rounds/3x2", Bound: mc.Pick(r, 3, 5)}, rounds(r, 3, 2))
 			r.Explore(mc.Config{Name: "rounds/2x3", Bound: mc.Pick(r, 3, 5)}, rounds(r, 2, 3))
-			r.Extra["rule"] = "n in 0..5 (6) clocks, each {ok,error} x {returns as an event, returns only after cancellation, never returns until released at the end}; all total orders of clock returns and the cancellation (explicit cancel and virtual deadline); 2 and 3 consecutive rounds of 2 or 3 clocks on one collector where clocks of an earlier round return at any point of a later one (each round judged on its own clocks); second collection on the same collector under all interleavings of the guard's compare-and-swap operations"
+			r.Extra["rule"] = "n in 0..5 (6) clocks, each {ok,error} x {returns as an event, returns only after cancellation, never returns until released at the end}; all total orders of clock returns and the cancellation (explicit cancel, virtual deadline, context already over at the start); 2 and 3 consecutive rounds of 2 or 3 clocks on one collector where clocks of an earlier round return at any point of a later one (each round judged on its own clocks); second collection on the same collector under all interleavings of the guard's compare-and-swap operations"
 		}
 	})
 }
